@@ -6,6 +6,7 @@ import (
 	"crypto/rand"
 	"crypto/rsa"
 	"math/big"
+	"time"
 
 	"github.com/zmap/zcrypto/encoding/asn1"
 	"github.com/zmap/zcrypto/x509"
@@ -55,6 +56,24 @@ func Realise(c *x509.Certificate) *x509.Certificate {
 		t.PolicyIdentifiers = nil
 		t.ExtraExtensions = append(append([]pkix.Extension{}, t.ExtraExtensions...), ext)
 	}
+	// extensions the model names through the extension map (present flag, criticality, raw value) are
+	// encoded verbatim; the encoder lets them override what it would derive from the typed fields, and the
+	// parser then derives the typed fields from the raw value (or rejects the certificate)
+	for k, e := range c.ExtensionsMap {
+		id := e.Id
+		if len(id) == 0 {
+			id = parseOID(k)
+		}
+		if len(id) < 2 || id.Equal(oidCertPolicies) && len(t.ExtraExtensions) > 0 {
+			continue
+		}
+		v := e.Value
+		if v == nil {
+			v = []byte{}
+		}
+		t.ExtraExtensions = append(t.ExtraExtensions, pkix.Extension{Id: id, Critical: e.Critical, Value: v})
+	}
+	t.ExtensionsMap = nil
 	parent := &x509.Certificate{Subject: c.Issuer, SerialNumber: big.NewInt(2)}
 	if c.SelfSigned {
 		parent = &t
@@ -71,6 +90,26 @@ func Realise(c *x509.Certificate) *x509.Certificate {
 }
 
 var oidCertPolicies = asn1.ObjectIdentifier{2, 5, 29, 32}
+
+func parseOID(s string) asn1.ObjectIdentifier {
+	var out asn1.ObjectIdentifier
+	n, have := 0, false
+	for i := 0; i <= len(s); i++ {
+		if i == len(s) || s[i] == '.' {
+			if !have {
+				return nil
+			}
+			out = append(out, n)
+			n, have = 0, false
+			continue
+		}
+		if s[i] < '0' || s[i] > '9' {
+			return nil
+		}
+		n, have = n*10+int(s[i]-'0'), true
+	}
+	return out
+}
 
 // policiesExtension encodes certificatePolicies with userNotice explicit texts
 // (arbitrary string tag and bytes) and CPS URIs taken from the model.
@@ -157,6 +196,10 @@ func RealiseCRL(c *x509.RevocationList) *x509.RevocationList {
 		t.Number = big.NewInt(1)
 	}
 	t.Extensions = nil
+	if t.NextUpdate.IsZero() && t.NextUpdate.Before(t.ThisUpdate) {
+		// the path never looked at nextUpdate (no model value): any value the encoder accepts will do
+		t.NextUpdate = t.ThisUpdate.Add(time.Hour)
+	}
 	issuer := &x509.Certificate{Subject: c.Issuer, SerialNumber: big.NewInt(2), KeyUsage: x509.KeyUsageCRLSign, SubjectKeyId: []byte{1, 2, 3, 4}}
 	der, err := x509.CreateRevocationList(rand.Reader, &t, issuer, key)
 	if err != nil {
